@@ -116,6 +116,7 @@ def report(prop, args, results, known, seed, wall, all_ids):
     undecided = []
     crashes = []
     known_lines = []
+    known_seen = set()
     functions = {}
     backends = {}
     solver_s = 0.0
@@ -159,6 +160,9 @@ def report(prop, args, results, known, seed, wall, all_ids):
                 samples.append(s)
         for h in r['known_hits']:
             e = known[h['finding']]
+            if h['finding'] in known_seen:
+                continue
+            known_seen.add(h['finding'])
             known_lines.append("KNOWN-FINDING: property=%s %s [%s; obligation %s#%s; witness %s%s]" % (
                 prop, e['what'], h['finding'], r['id'], h['clause'], json.dumps(h['values'], sort_keys=True),
                 '' if h.get('native_confirmed') else '; native replay did not confirm'))
